@@ -1134,9 +1134,20 @@ Proof.
 Qed.
 
 (* the translator obligation: the geometry productions the model accounts for are exactly the geometry
-   productions of the generated table (a change of CellParser's grammar breaks this equation) *)
-Lemma grammar_skeleton : geom_table cell_productions = map fst geom_rules.
+   productions of the generated table, in any order (a change of CellParser's grammar breaks this equation) *)
+Lemma grammar_skeleton : same_prods (geom_table cell_productions) (map fst geom_rules) = true.
 Proof. vm_compute. reflexivity. Qed.
+
+Lemma gprod_mem_In : forall p l, gprod_mem p l = true -> In p l.
+Proof.
+  intros p l H. apply existsb_exists in H. destruct H as (q & Hq & E). apply gprod_eqb_eq in E. subst q. exact Hq.
+Qed.
+
+Lemma same_prods_incl : forall a b, same_prods a b = true -> incl a b.
+Proof.
+  intros a b H p Hp. apply andb_true_iff in H. destruct H as [H _].
+  apply gprod_mem_In. exact (proj1 (forallb_forall _ _) H p Hp).
+Qed.
 
 Lemma rule_lookup_in : forall p tbl, In p (map fst tbl) -> exists r, rule_lookup p tbl = Some r /\ In r (map snd tbl).
 Proof.
@@ -1156,7 +1167,7 @@ Proof.
   intros l r ks H Hl. cbn [pwf] in H.
   apply andb_true_iff in H. destruct H as [H _]. apply andb_true_iff in H. destruct H as [H _].
   apply existsb_exists in H. destruct H as (q & Hin & Hq). apply gprod_eqb_eq in Hq. subst q.
-  rewrite <- grammar_skeleton. unfold geom_table. apply filter_In. split; [exact Hin | exact Hl].
+  apply (same_prods_incl _ _ grammar_skeleton). unfold geom_table. apply filter_In. split; [exact Hin | exact Hl].
 Qed.
 
 Lemma node_kids : forall G l r ks, pwf G (PNode l r ks) = true -> map proot ks = r /\ Forall (fun k => pwf G k = true) ks.
@@ -1270,10 +1281,7 @@ Proof.
 Qed.
 
 (* the padding productions of the generated table *)
-Lemma padding_table :
-  filter (fun p => String.eqb (fst p) "padding") cell_productions =
-  [("padding", ["padding"; "&"]); ("padding", ["padding"; "COMMENT"]); ("padding", ["padding"; "DOLLAR_COMMENT"]);
-   ("padding", ["padding"; "SPACE"]); ("padding", ["COMMENT"]); ("padding", ["DOLLAR_COMMENT"]); ("padding", ["SPACE"])]%string.
+Lemma padding_skeleton : same_prods (padding_table cell_productions) padding_prods = true.
 Proof. vm_compute. reflexivity. Qed.
 
 Lemma node_in : forall l r ks, pwf cell_productions (PNode l r ks) = true -> In (l, r) cell_productions.
@@ -1304,9 +1312,10 @@ Proof.
   - destruct k as [? ?| | | | |[]]; discriminate Hroot.
   - cbn [proot] in Hroot. subst l.
     pose proof (node_in _ _ _ Hwf) as Hin.
-    assert (Hp : In ("padding"%string, r) (filter (fun p => String.eqb (fst p) "padding") cell_productions)).
-    { apply filter_In. split; [exact Hin | reflexivity]. }
-    rewrite padding_table in Hp.
+    assert (Hp : In ("padding"%string, r) padding_prods).
+    { apply (same_prods_incl _ _ padding_skeleton). unfold padding_table.
+      apply filter_In. split; [exact Hin | reflexivity]. }
+    unfold padding_prods in Hp.
     destruct (node_kids _ _ _ _ Hwf) as [Hroots Hkids].
     cbn [In] in Hp.
     repeat (destruct Hp as [Hp|Hp]; [injection Hp as Hr; rewrite <- Hr in *; clear Hr|]); try contradiction;
@@ -1692,3 +1701,38 @@ Proof.
   intros H. specialize (H env1). vm_compute in H. discriminate H.
 Qed.
 
+
+(* what &= and |= mean at least, whatever the shape of the left operand: a &= b only removes points of a and
+   keeps those of a & b;  a |= b only adds points of b *)
+Definition bimp (a b : bexp) : Prop := forall env, eval env a = true -> eval env b = true.
+
+Lemma graft_bounds_inter : forall e o, bimp (BAnd e o) (graft OInter e o) /\ bimp (graft OInter e o) e.
+Proof.
+  induction e; intros o; simpl graft;
+    try (split; intros env H; simpl in *; try exact H; apply andb_true_iff in H; tauto).
+  - destruct (IHe2 o) as [L U]. split; intros env H; specialize (L env); specialize (U env); simpl in *;
+      destruct (eval env e1), (eval env e2), (eval env o), (eval env (graft OInter e2 o));
+      simpl in *; intuition congruence.
+  - destruct (IHe2 o) as [L U]. split; intros env H; specialize (L env); specialize (U env); simpl in *;
+      destruct (eval env e1), (eval env e2), (eval env o), (eval env (graft OInter e2 o));
+      simpl in *; intuition congruence.
+Qed.
+
+Lemma graft_bounds_union : forall e o, bimp e (graft OUnion e o) /\ bimp (graft OUnion e o) (BOr e o).
+Proof.
+  induction e; intros o; simpl graft;
+    try (split; intros env H; simpl in *; try exact H; rewrite H; reflexivity).
+  - destruct (IHe2 o) as [L U]. split; intros env H; specialize (L env); specialize (U env); simpl in *;
+      destruct (eval env e1), (eval env e2), (eval env o), (eval env (graft OUnion e2 o));
+      simpl in *; intuition congruence.
+  - destruct (IHe2 o) as [L U]. split; intros env H; specialize (L env); specialize (U env); simpl in *;
+      destruct (eval env e1), (eval env e2), (eval env o), (eval env (graft OUnion e2 o));
+      simpl in *; intuition congruence.
+Qed.
+
+Lemma aug_bounds : forall a b,
+  (bimp (BAnd (sem_hs a) (sem_hs b)) (sem_hs (fst (hs_iop OInter a b))) /\
+   bimp (sem_hs (fst (hs_iop OInter a b))) (sem_hs a)) /\
+  (bimp (sem_hs a) (sem_hs (fst (hs_iop OUnion a b))) /\
+   bimp (sem_hs (fst (hs_iop OUnion a b))) (BOr (sem_hs a) (sem_hs b))).
+Proof. intros a b. rewrite !iop_sem. split; [apply graft_bounds_inter | apply graft_bounds_union]. Qed.
